@@ -15,6 +15,9 @@ namespace Gkv
 structure DState where
   w : World
   hist : Array World := #[]     -- hist[k] = the world after the first k published mutations
+  flushed : List (Nat × List String) := []
+    -- SPECIFICATION ghost for C08: per store, what the store showed at each successful Flush, newest
+    -- first.  Kept beside the model, never consulted by it: `revertspec` answers from this stack.
 deriving Inhabited
 
 /-- the state a concurrent Flush must have persisted: collection i (in name order) as it was in
@@ -83,6 +86,32 @@ def dstepTokens (d : DState) (ts : List String) : DState × String :=
                                       stores := assocSet s { st with colls := cs, size := fs.size } w.stores } },
                if fs.failed then "err-io" else "ok"))
      | _, _ => (d, "bad-op"))
+  | ["reset"] => ({ w := (stepTokens2 d.w ["reset"]).1, hist := #[], flushed := [] }, "ok")
+  | ["flush", s] =>
+    let (w', o) := stepTokens2 d.w ["flush", s]
+    (match s.toNat?, o == "ok" with
+     | some sn, true =>
+       (match assocGet sn w'.stores with
+        | some st => ({ d with w := w', flushed := assocSet sn (showStore st :: (assocGet sn d.flushed).getD []) d.flushed }, o)
+        | none => ({ d with w := w' }, o))
+     | _, _ => ({ d with w := w' }, o))
+  | ["setforge", s, n, _, _] =>
+    -- the harness rewrites this line into the `set` it amounts to; it reaches the model only when
+    -- the store or collection does not exist
+    let o := (stepTokens2 d.w ["totals", s, n]).2
+    (d, if o == "nostore" || o == "nocoll" then o else "bad-op")
+  | ["revertspec", s] =>
+    -- FlushRevert, answered by the SPECIFICATION (C08: "returns the store to exactly the state of
+    -- the Flush before the most recent one; an empty store with no collections if there is none"),
+    -- not by the model of the scan.  The model's own revert is applied to the world so that model
+    -- and implementation stay in step afterwards, whatever the scan made of the file.
+    let (w', o) := stepTokens2 d.w ["revert", s]
+    if o != "ok" then ({ d with w := w' }, o) else
+    (match s.toNat? with
+     | some sn =>
+       let rest := ((assocGet sn d.flushed).getD []).drop 1
+       ({ d with w := w', flushed := assocSet sn rest d.flushed }, "ok " ++ rest.headD "")
+     | none => ({ d with w := w' }, "bad-op"))
   | ["seta", s, n, k, v, _, p] =>
     -- Collection.SetAny(key, val): SetItem of (toBa key, toBa val) with the priority math/rand
     -- hands out next (the harness seeds it and passes the value it will draw)
